@@ -189,7 +189,36 @@ func init() {
 								return true
 							})
 							if uses {
+								before := includesTarget
 								check(x.X)
+								if includesTarget && !before {
+									// the loop over the target level's tables takes every one of them: no
+									// table is skipped and the append is unconditional
+									partial := ""
+									ast.Inspect(x.Body, func(k ast.Node) bool {
+										switch y := k.(type) {
+										case *ast.BranchStmt:
+											partial = "a table can be skipped (" + y.Tok.String() + ")"
+										case *ast.IfStmt, *ast.SwitchStmt:
+											inspect(y, func(q ast.Node) bool {
+												if as, ok := q.(*ast.AssignStmt); ok {
+													for _, l := range as.Lhs {
+														if prog.IdentObj(info, l) == removed {
+															partial = "the table is taken only under a condition"
+														}
+													}
+												}
+												return true
+											})
+										case *ast.FuncLit:
+											return false
+										}
+										return true
+									})
+									if partial != "" {
+										r.Fail(f.Name()+":target-level-partial:"+removed.Name(), x.Pos(), nil, "only some tables of the target level are merged (%s): the new run is added next to the tables left in place, the level is no longer one key-ordered run and its binary search misses keys that are still stored", partial)
+									}
+								}
 							}
 						}
 						return true
